@@ -4,7 +4,7 @@ from __future__ import annotations
 import ast
 from typing import Dict, List, Optional, Set, Tuple
 
-from ..cfg import CFG
+from ..cfg import CFG, EXIT
 from ..exprnorm import Poly, Rat, norm_test, normalize
 from ..report import Run
 from ..src import (AnalysisError, FuncInfo, Program, attr_chain, call_name, stmt_key,
@@ -84,6 +84,7 @@ def check(prog: Program, run: Run) -> None:
     _bcd(prog, run)
     _siblings(prog, run)
     _single_writer(prog, run)
+    _emplace_paths(prog, run)
     _backend(prog, run)
     _strings(prog, run)
     from . import c01
@@ -497,6 +498,39 @@ def _single_writer(prog: Program, run: Run) -> None:
         run.violation(R, "EncodeState.emplace_bytes", "growth",
                       "when the PDU has to grow it is not extended by zero bytes marked unused",
                       f.loc)
+
+
+def _emplace_paths(prog: Program, run: Run, R: str = "C02.R3") -> None:
+    """Every returning path of emplace_bytes passes the growth test and the cursor advance: an
+    empty object (RESERVED / NRC-CONST padding) still extends the PDU up to the cursor."""
+    f = prog.func("EncodeState.emplace_bytes")
+    cfg = CFG(f.node)
+    grow = []
+    adv = []
+    for node in cfg.nodes:
+        if node.stmt is None:
+            continue
+        if node.kind == "if" and "len(self.coded_message)" in ast.unparse(node.expr) and any(
+                isinstance(b, ast.AugAssign) and ast.unparse(b.target) == "self.coded_message"
+                for b in node.stmt.body):
+            grow.append(node.id)
+        if node.kind == "stmt" and isinstance(node.stmt, ast.AugAssign) and ast.unparse(
+                node.stmt.target) == "self.cursor_byte_position":
+            adv.append(node.id)
+    for ids, key, what in ((grow, "growth-skipped", "the test that extends the PDU up to "
+                            "cursor + len(data)"),
+                           (adv, "advance-skipped", "the cursor advance")):
+        if not ids:
+            run.violation(R, "EncodeState.emplace_bytes", key.replace("skipped", "missing"),
+                          f"{what} was not found", f.loc)
+        elif cfg.must_pass(0, ids, EXIT):
+            run.ok(R, "EncodeState.emplace_bytes", f"every returning path passes {what}", f.loc)
+        else:
+            run.violation(R, "EncodeState.emplace_bytes", key,
+                          f"there is a returning path that bypasses {what}: an empty object "
+                          "placed behind the current end (RESERVED or NRC-CONST padding, BYTE-SIZE "
+                          "padding) no longer extends the PDU, so it is shorter than its static "
+                          "length", f.loc)
 
 
 # ----------------------------------------------------------------------- R4
